@@ -493,6 +493,9 @@ def _rowsel(base, sel, kind):
 
 def mk_mask(base, cond):
     tg = tag(base)
+    while (tag(cond) == 'vals' and boolish(cond[1])) or (tag(cond) == 'mcall' and cond[2] == 'to_numpy' and not cond[3]
+                                                          and boolish(cond[1])):
+        cond = cond[1]          # a mask handed over as a plain array selects the same rows
     if tg == 'col':          # x[c][m] -> x[m][c]
         return ('col', mk_mask(base[1], cond), base[2])
     if tg == 'cols':
@@ -916,3 +919,33 @@ def lin_cmp(t):
         items = tuple((k, -v) for k, v in items)
         const = -const
     return ('lin', op, items, const)
+
+
+def count_cond(t):
+    """M when t counts the rows a boolean selection M keeps, in any spelling: len(x[M]), len(x[M].index), x[M].shape[0],
+    M.sum(), np.sum(M), np.count_nonzero(M), len(M[M]), int(...) of these; else None."""
+    t0 = t
+    for _ in range(4):
+        if tag(t0) == 'call' and t0[1] in (('g', 'builtins.int'), ('g', 'numpy.int64')) and len(t0[2]) == 1 and not t0[3]:
+            t0 = t0[2][0]
+        else:
+            break
+    if tag(t0) == 'call' and t0[1] == ('g', 'builtins.len') and len(t0[2]) == 1:
+        x = t0[2][0]
+        while tag(x) in ('index', 'vals', 'col', 'cols') or (tag(x) == 'mcall' and x[2] in ('to_numpy', 'to_list', 'copy')):
+            x = x[1]
+        if tag(x) == 'mask':
+            return x[2]
+        return None
+    m = None
+    if tag(t0) == 'mcall' and t0[2] == 'sum' and not t0[3] and not t0[4]:
+        m = t0[1]
+    if tag(t0) == 'call' and t0[1] in (('g', 'numpy.sum'), ('g', 'numpy.count_nonzero'), ('g', 'builtins.sum')) and \
+            len(t0[2]) == 1 and not t0[3]:
+        m = t0[2][0]
+    if m is not None:
+        while tag(m) == 'vals' or (tag(m) == 'mcall' and m[2] in ('to_numpy', 'astype', 'copy') and boolish(m[1])):
+            m = m[1]
+        if boolish(m) or tag(m) in ('lphi',):
+            return m
+    return None
